@@ -13,8 +13,9 @@ ID = "C18"
 LEVEL = "exploration"
 BUDGET = {"quick": 8000, "thorough": 120000}
 RULE = (
-    "four generated sub-cases. script: SlurmConfig with every optional field set/unset, job name, paths, group "
-    "options -> the #SBATCH option map parsed from the file written by create_submission_script must equal "
+    "four generated sub-cases. script: 1-3 submission groups, each a SlurmConfig with every optional field set/unset, job "
+    "name and run options, taken through the real objects (JobSubmitter.create, Cluster.create, HpcSubmitter, "
+    "HpcManager.submit(dry_run=True)) -> per group the #SBATCH option map parsed from the written file must equal "
     "{account, job-name, time, output, error} + every optional field that is not None in the validated model "
     "(option names compared modulo '_'/'-'), last line 'srun <script>', and the run script written by "
     "HpcSubmitter._create_run_script must carry exactly the group's options. status: squeue outputs over the full "
@@ -40,8 +41,7 @@ STATES = ["BOOT_FAIL", "CANCELLED", "COMPLETED", "CONFIGURING", "COMPLETING", "D
 BLANK = st.text(alphabet=" \t", min_size=1, max_size=6)
 OPT = lambda s: st.one_of(st.none(), s)  # noqa: E731
 
-script_cases = st.fixed_dictionaries({
-    "kind": st.just("script"),
+GROUP = st.fixed_dictionaries({
     "account": st.sampled_from(["acct", "proj-1", "a_b"]),
     "walltime": st.sampled_from(["4:00:00", "0:05:00", "100:00:00"]),
     "partition": OPT(st.sampled_from(["debug", "short"])), "qos": OPT(st.just("high")), "mem": OPT(st.sampled_from(["10G", "184000"])),
@@ -50,6 +50,7 @@ script_cases = st.fixed_dictionaries({
     "name": st.from_regex(r"[A-Za-z0-9_]{1,12}_batch_[0-9]{1,3}", fullmatch=True),
     "nproc": OPT(st.integers(1, 36)), "dsub": st.booleans(), "verbose": st.booleans(),
 })
+script_cases = st.fixed_dictionaries({"kind": st.just("script"), "groups": st.lists(GROUP, min_size=1, max_size=3)})
 
 status_cases = st.fixed_dictionaries({
     "kind": st.just("status"),
@@ -100,66 +101,97 @@ def _slurm_config(case):
 
 
 def run_script_case(case, res):
+    """Through the real objects: JobSubmitter.create -> Cluster.create -> HpcSubmitter; per group the run script and
+    (via HpcManager.submit(dry_run=True), the path every batch takes) the submission script."""
+    from pathlib import Path
+
+    from jade.extensions.generic_command import GenericCommandConfiguration, GenericCommandParameters
     from jade.hpc.hpc_submitter import HpcSubmitter
-    from jade.hpc.slurm_manager import SlurmManager
+    from jade.jobs.cluster import Cluster
+    from jade.jobs.job_submitter import JobSubmitter
     from jade.models import SubmissionGroup, SubmitterParams
 
     v = res["violations"]
     tmp = D.fresh_dir()
+    out = os.path.join(tmp, "out")
     try:
-        hpc = _slurm_config(case)
-        mgr = SlurmManager(hpc)
-        filename = os.path.join(tmp, case["name"] + ".sh")
-        run_script = os.path.join(tmp, "run_" + case["name"] + ".sh")
-        mgr.create_submission_script(case["name"], run_script, filename, tmp)
-        lines = open(filename).read().splitlines()
-        opts = {}
-        for ln in lines:
-            if ln.startswith("#SBATCH"):
-                m = re.match(r"#SBATCH --([^=\s]+)=(.*)$", ln)
-                if not m:
-                    v.append(D.viol("C18:script-unparsable-sbatch-line", f"{ln!r}"))
-                    continue
-                key = m.group(1).replace("_", "-")
-                if key in opts:
-                    v.append(D.viol("C18:script-duplicate-option", f"option {key} twice"))
-                opts[key] = m.group(2)
-        want = {"account": case["account"], "job-name": case["name"], "time": case["walltime"],
-                "output": f"{tmp}/job_output_%j.o", "error": f"{tmp}/job_output_%j.e"}
-        model = hpc.hpc  # validated public model (nodes may have been defaulted to 1)
-        for f in ("partition", "qos", "mem", "tmp", "gres", "reservation", "nodes", "ntasks", "ntasks_per_node"):
-            val = getattr(model, f)
-            if val is not None:
-                want[f.replace("_", "-")] = str(val)
-        if opts != want:
-            missing = {k: want[k] for k in want if opts.get(k) != want[k]}
-            extra = {k: opts[k] for k in opts if k not in want}
-            v.append(D.viol("C18:script-options-differ", f"#SBATCH options {opts}; expected {want}; wrong/missing {missing}; extra {extra}"))
-        if not lines or lines[0] != "#!/bin/bash":
-            v.append(D.viol("C18:script-shebang", f"first line {lines[:1]}"))
-        body = [ln for ln in lines if ln and not ln.startswith("#")]
-        if body != [f"srun {run_script}"]:
-            v.append(D.viol("C18:script-does-not-run-batch-script", f"non-comment lines {body}; expected ['srun {run_script}']"))
-        # run script
-        sp = SubmitterParams(hpc_config=hpc, num_processes=case["nproc"], distributed_submitter=case["dsub"], verbose=case["verbose"])
-        group = SubmissionGroup(name="g", submitter_params=sp)
-        stub = types.SimpleNamespace(_output=os.path.join(tmp, "out"))
-        cfgfile = os.path.join(tmp, "config_batch_3.json")
-        HpcSubmitter._create_run_script(stub, cfgfile, run_script, group)
-        rl = [ln for ln in open(run_script).read().splitlines() if ln and not ln.startswith("#")]
-        wantcmd = ["jade-internal", "run-jobs", cfgfile, f"--output={stub._output}",
-                   "--distributed-submitter" if case["dsub"] else "--no-distributed-submitter"]
-        if case["nproc"] is not None:
-            wantcmd.append(f"--num-parallel-processes-per-node={case['nproc']}")
-        if case["verbose"]:
-            wantcmd.append("--verbose")
-        if len(rl) != 1 or rl[0].split() != wantcmd:
-            v.append(D.viol("C18:run-script-options-differ", f"run script {rl}; expected {' '.join(wantcmd)}"))
-        if not os.access(run_script, os.X_OK) or not os.access(filename, os.X_OK):
-            v.append(D.viol("C18:script-not-executable", "generated script is not executable"))
-        nset = sum(1 for f in ("partition", "qos", "mem", "tmp", "gres", "reservation", "nodes", "ntasks", "ntasks_per_node") if case[f] is not None)
-        res["nontrivial"] = nset >= 3
-        res["sample"] = {"kind": "script", "options": opts}
+        groups = []
+        for gi, g in enumerate(case["groups"]):
+            hpc = _slurm_config(g)
+            sp = SubmitterParams(hpc_config=hpc, num_processes=g["nproc"], distributed_submitter=g["dsub"], verbose=g["verbose"],
+                                 generate_reports=False, resource_monitor_type="none")
+            groups.append(SubmissionGroup(name=f"g{gi}", submitter_params=sp))
+        cfg = GenericCommandConfiguration(submission_groups=[x.dict() for x in groups])
+        for gi in range(len(groups)):
+            cfg.add_job(GenericCommandParameters(command="true", submission_group=f"g{gi}"))
+        try:
+            mgr = JobSubmitter.create(cfg, out)
+            cluster = Cluster.create(out, mgr.config)
+            hs = HpcSubmitter(mgr.config, Path(out) / "config.json", cluster, out)
+        except Exception as e:  # noqa: BLE001
+            v.append(D.viol(f"C18:cannot-create-submitter|{type(e).__name__}", f"{type(e).__name__}: {str(e)[:300]}"))
+            return
+        nset_max = 0
+        sample = []
+        for gi, g in enumerate(case["groups"]):
+            group = cluster.config.submission_groups[gi]
+            name = g["name"]
+            run_script = os.path.join(out, f"run_{name}_{gi}.sh")
+            cfgfile = os.path.join(out, f"config_batch_{gi + 1}.json")
+            try:
+                hs._create_run_script(cfgfile, run_script, group)
+                job_id, status = hs._hpc_mgr.submit(out, f"{name}{gi}", run_script, group.name, dry_run=True)
+            except Exception as e:  # noqa: BLE001
+                v.append(D.viol(f"C18:script-generation-raised|{type(e).__name__}", f"group g{gi}: {type(e).__name__}: {str(e)[:300]}"))
+                continue
+            filename = os.path.join(out, f"{name}{gi}.sh")
+            lines = open(filename).read().splitlines()
+            opts = {}
+            for ln in lines:
+                if ln.startswith("#SBATCH"):
+                    m = re.match(r"#SBATCH --([^=\s]+)=(.*)$", ln)
+                    if not m:
+                        v.append(D.viol("C18:script-unparsable-sbatch-line", f"{ln!r}"))
+                        continue
+                    key = m.group(1).replace("_", "-")
+                    if key in opts:
+                        v.append(D.viol("C18:script-duplicate-option", f"option {key} twice"))
+                    opts[key] = m.group(2)
+            want = {"account": g["account"], "job-name": f"{name}{gi}", "time": g["walltime"],
+                    "output": f"{out}/job_output_%j.o", "error": f"{out}/job_output_%j.e"}
+            model = group.submitter_params.hpc_config.hpc  # validated public model (nodes may have been defaulted to 1)
+            for f in ("partition", "qos", "mem", "tmp", "gres", "reservation", "nodes", "ntasks", "ntasks_per_node"):
+                val = getattr(model, f)
+                if val is not None:
+                    want[f.replace("_", "-")] = str(val)
+            if opts != want:
+                missing = {k: want[k] for k in want if opts.get(k) != want[k]}
+                extra = {k: opts[k] for k in opts if k not in want}
+                v.append(D.viol("C18:script-options-differ", f"group g{gi}: #SBATCH options {opts}; expected {want}; wrong/missing {missing}; "
+                                f"extra {extra}"))
+            if not lines or lines[0] != "#!/bin/bash":
+                v.append(D.viol("C18:script-shebang", f"first line {lines[:1]}"))
+            body = [ln for ln in lines if ln and not ln.startswith("#")]
+            if body != [f"srun {run_script}"]:
+                v.append(D.viol("C18:script-does-not-run-batch-script", f"non-comment lines {body}; expected ['srun {run_script}']"))
+            rl = [ln for ln in open(run_script).read().splitlines() if ln and not ln.startswith("#")]
+            wantcmd = ["jade-internal", "run-jobs", cfgfile, f"--output={out}",
+                       "--distributed-submitter" if g["dsub"] else "--no-distributed-submitter"]
+            if g["nproc"] is not None:
+                wantcmd.append(f"--num-parallel-processes-per-node={g['nproc']}")
+            if g["verbose"]:
+                wantcmd.append("--verbose")
+            if len(rl) != 1 or rl[0].split() != wantcmd:
+                v.append(D.viol("C18:run-script-options-differ", f"group g{gi} of {len(case['groups'])}: run script {rl}; expected "
+                                f"{' '.join(wantcmd)}"))
+            if not os.access(run_script, os.X_OK) or not os.access(filename, os.X_OK):
+                v.append(D.viol("C18:script-not-executable", "generated script is not executable"))
+            nset = sum(1 for f in ("partition", "qos", "mem", "tmp", "gres", "reservation", "nodes", "ntasks", "ntasks_per_node") if g[f] is not None)
+            nset_max = max(nset_max, nset)
+            sample.append(opts)
+        res["classes"].append(f"script_groups:{len(case['groups'])}")
+        res["nontrivial"] = nset_max >= 3
+        res["sample"] = {"kind": "script", "options_per_group": sample}
     finally:
         shutil.rmtree(tmp, ignore_errors=True)
 
